@@ -1,0 +1,364 @@
+//! Verification hooks - DO NOT USE!
+//!
+//! This module requires the internal `__verif` feature to be enabled. It exposes
+//! plain-typed wrappers around otherwise private building blocks, plus thread-local
+//! probes and taps used by an external verification harness. With the feature
+//! disabled, none of this code is compiled and the crate behaves exactly as before.
+use std::cell::{Cell, RefCell};
+use std::path::Path;
+
+use garble_lang::register_circuit::Circuit;
+use rand::{RngCore, SeedableRng};
+use rand_chacha::ChaCha20Rng;
+use serde::{Serialize, de::DeserializeOwned};
+
+use crate::{
+    block::Block,
+    channel::Channel,
+    crypto::{AesRng, FIXED_KEY_HASH},
+    mpc::{
+        data_types::{Auth, Delta, Key, Mac, Share},
+        faand, fpre,
+        protocol::{_mpc, Context, Preprocessor},
+    },
+    utils::file_or_mem_buf::FileOrMemBuf,
+};
+
+// ---------------------------------------------------------------------------------------------
+// thread-local probe / tap state
+// ---------------------------------------------------------------------------------------------
+
+/// A value exported by the engine at a probe site.
+#[derive(Debug, Clone)]
+pub struct Probe {
+    /// Name of the probe site.
+    pub site: &'static str,
+    /// Party that was current when the probe fired (see [`set_current_party`]).
+    pub party: usize,
+    /// Scalar payload.
+    pub val: u128,
+    /// Vector payload (empty for scalar probes).
+    pub data: Vec<u64>,
+}
+
+/// Mutable reference handed to a tap closure.
+pub enum TapRef<'a> {
+    /// A boolean.
+    Bool(&'a mut bool),
+    /// A 128-bit value.
+    U128(&'a mut u128),
+    /// A byte buffer.
+    Bytes(&'a mut [u8]),
+}
+
+type TapFn = Box<dyn FnMut(usize, TapRef<'_>)>;
+
+thread_local! {
+    static CUR_PARTY: Cell<usize> = const { Cell::new(usize::MAX) };
+    static PROBES: RefCell<Vec<Probe>> = const { RefCell::new(Vec::new()) };
+    static PROBES_ON: Cell<bool> = const { Cell::new(false) };
+    static TAPS: RefCell<Vec<(&'static str, usize, TapFn)>> = const { RefCell::new(Vec::new()) };
+}
+
+/// Sets the party on whose behalf the engine code is about to run on this thread.
+pub fn set_current_party(p: usize) {
+    CUR_PARTY.with(|c| c.set(p));
+}
+
+/// Returns the party set by [`set_current_party`].
+pub fn current_party() -> usize {
+    CUR_PARTY.with(|c| c.get())
+}
+
+/// Clears all thread-local hook state and enables / disables probe recording.
+pub fn reset(record_probes: bool) {
+    PROBES.with(|p| p.borrow_mut().clear());
+    PROBES_ON.with(|p| p.set(record_probes));
+    TAPS.with(|t| t.borrow_mut().clear());
+    set_current_party(usize::MAX);
+}
+
+/// Takes all probes recorded so far on this thread.
+pub fn take_probes() -> Vec<Probe> {
+    PROBES.with(|p| std::mem::take(&mut *p.borrow_mut()))
+}
+
+/// Arms a tap for `(site, party)`. The closure is called with the index supplied at the site.
+pub fn arm_tap(site: &'static str, party: usize, f: impl FnMut(usize, TapRef<'_>) + 'static) {
+    TAPS.with(|t| t.borrow_mut().push((site, party, Box::new(f))));
+}
+
+pub(crate) fn probe(site: &'static str, val: u128) {
+    if PROBES_ON.with(|p| p.get()) {
+        let party = current_party();
+        PROBES.with(|p| {
+            p.borrow_mut().push(Probe {
+                site,
+                party,
+                val,
+                data: vec![],
+            })
+        });
+    }
+}
+
+pub(crate) fn probe_vec(site: &'static str, data: impl Iterator<Item = u64>) {
+    if PROBES_ON.with(|p| p.get()) {
+        let party = current_party();
+        PROBES.with(|p| {
+            p.borrow_mut().push(Probe {
+                site,
+                party,
+                val: 0,
+                data: data.collect(),
+            })
+        });
+    }
+}
+
+fn with_tap(site: &'static str, idx: usize, r: TapRef<'_>) {
+    let party = current_party();
+    TAPS.with(|t| {
+        // a tap closure must not re-enter the engine, so a plain borrow is fine
+        if let Ok(mut taps) = t.try_borrow_mut() {
+            if let Some((_, _, f)) = taps.iter_mut().find(|(s, p, _)| *s == site && *p == party) {
+                f(idx, r);
+            }
+        }
+    });
+}
+
+pub(crate) fn tap_bool(site: &'static str, idx: usize, v: &mut bool) {
+    with_tap(site, idx, TapRef::Bool(v));
+}
+
+#[allow(dead_code)]
+pub(crate) fn tap_u128(site: &'static str, idx: usize, v: &mut u128) {
+    with_tap(site, idx, TapRef::U128(v));
+}
+
+pub(crate) fn tap_bytes(site: &'static str, idx: usize, v: &mut [u8]) {
+    with_tap(site, idx, TapRef::Bytes(v));
+}
+
+pub(crate) fn tap_share_bit(site: &'static str, idx: usize, mut s: Share) -> Share {
+    tap_bool(site, idx, &mut s.0);
+    s
+}
+
+// ---------------------------------------------------------------------------------------------
+// plain-typed wrappers
+// ---------------------------------------------------------------------------------------------
+
+/// An authenticated share in plain integers: `(bit, [(mac, key); n])`.
+pub type PShare = (bool, Vec<(u128, u128)>);
+
+fn to_share(s: &PShare) -> Share {
+    Share(
+        s.0,
+        Auth(s.1.iter().map(|(m, k)| (Mac(*m), Key(*k))).collect()),
+    )
+}
+
+fn from_share(s: &Share) -> PShare {
+    (s.0, s.1.0.iter().map(|(m, k)| (m.0, k.0)).collect())
+}
+
+/// Multi-party coin toss.
+pub async fn shared_rng(channel: &impl Channel, i: usize, n: usize) -> Result<ChaCha20Rng, String> {
+    faand::shared_rng(channel, i, n)
+        .await
+        .map_err(|e| format!("{e:?}"))
+}
+
+/// Pairwise coin toss.
+pub async fn shared_rng_pairwise(
+    channel: &impl Channel,
+    i: usize,
+    n: usize,
+) -> Result<Vec<Vec<Option<ChaCha20Rng>>>, String> {
+    faand::shared_rng_pairwise(channel, i, n)
+        .await
+        .map_err(|e| format!("{e:?}"))
+}
+
+/// `fashare` with plain types.
+pub async fn fashare(
+    channel: &impl Channel,
+    delta: u128,
+    i: usize,
+    n: usize,
+    l: usize,
+    shared_two_by_two: &mut [Vec<Option<ChaCha20Rng>>],
+    multi_shared_rand: &mut ChaCha20Rng,
+) -> Result<Vec<PShare>, String> {
+    let r = faand::fashare(
+        (channel, Delta(delta)),
+        i,
+        n,
+        l,
+        shared_two_by_two,
+        multi_shared_rand,
+    )
+    .await
+    .map_err(|e| format!("{e:?}"))?;
+    Ok(r.iter().map(from_share).collect())
+}
+
+/// `beaver_aand` with plain types.
+#[allow(clippy::too_many_arguments)]
+pub async fn beaver_aand(
+    channel: &impl Channel,
+    delta: u128,
+    alpha_beta: &[(PShare, PShare)],
+    i: usize,
+    n: usize,
+    l: usize,
+    shared_rand: &mut ChaCha20Rng,
+    abc: &[PShare],
+) -> Result<Vec<PShare>, String> {
+    let ab: Vec<(Share, Share)> = alpha_beta
+        .iter()
+        .map(|(a, b)| (to_share(a), to_share(b)))
+        .collect();
+    let abc: Vec<Share> = abc.iter().map(to_share).collect();
+    let r = faand::beaver_aand((channel, Delta(delta)), &ab, i, n, l, shared_rand, &abc)
+        .await
+        .map_err(|e| format!("{e:?}"))?;
+    Ok(r.iter().map(from_share).collect())
+}
+
+/// Bucket size used for a batch of `l` AND triples.
+pub fn bucket_size(l: usize) -> usize {
+    faand::bucket_size(l)
+}
+
+/// Runs the trusted dealer for `parties` parties.
+pub async fn fpre(channel: &(impl Channel + Send), parties: usize) -> Result<(), String> {
+    fpre::fpre(channel, parties)
+        .await
+        .map_err(|e| format!("{e:?}"))
+}
+
+/// `mpc` with the trusted dealer at index `p_fpre` as preprocessor.
+pub async fn mpc_with_dealer(
+    channel: &impl Channel,
+    circuit: &Circuit,
+    inputs: &[bool],
+    p_fpre: usize,
+    p_eval: usize,
+    p_own: usize,
+    p_out: &[usize],
+) -> Result<Vec<bool>, crate::Error> {
+    let ctx = Context::new(
+        channel,
+        circuit,
+        inputs,
+        Preprocessor::TrustedDealer(p_fpre),
+        p_eval,
+        p_own,
+        p_out,
+        None,
+    );
+    _mpc(&ctx).await
+}
+
+/// Wrapper exposing [`FileOrMemBuf`] for a concrete element type.
+pub struct VBuf<T>(FileOrMemBuf<T>);
+
+impl<T: Serialize + DeserializeOwned + Clone> VBuf<T> {
+    /// New buffer, in `dir` as a temp file or in memory.
+    pub fn new(dir: Option<&Path>, capacity: usize) -> std::io::Result<Self> {
+        Ok(Self(FileOrMemBuf::new(dir, capacity)?))
+    }
+
+    /// Appends a chunk.
+    pub fn write_chunk(&mut self, chunk: &[T]) -> Result<(), String> {
+        self.0.write_chunk(chunk).map_err(|e| format!("{e:?}"))
+    }
+
+    /// Creates an item iterator, takes up to `k` items, drops the iterator.
+    pub fn iter_take(&mut self, k: usize) -> Result<Vec<T>, String> {
+        let it = self.0.iter().map_err(|e| format!("{e:?}"))?;
+        it.take(k)
+            .collect::<Result<Vec<T>, _>>()
+            .map_err(|e| format!("{e:?}"))
+    }
+
+    /// Creates a chunk iterator, takes up to `k` chunks, drops the iterator.
+    pub fn chunks_take(&mut self, size: usize, k: usize) -> Result<Vec<Vec<T>>, String> {
+        let it = self.0.chunks(size).map_err(|e| format!("{e:?}"))?;
+        it.take(k)
+            .map(|c| c.map(|c| c.into_owned()))
+            .collect::<Result<Vec<Vec<T>>, _>>()
+            .map_err(|e| format!("{e:?}"))
+    }
+
+    /// Whether this buffer is file backed.
+    pub fn is_file(&self) -> bool {
+        matches!(self.0, FileOrMemBuf::ChunkedTmpFile { .. })
+    }
+}
+
+/// Dispatching bit-matrix transpose.
+pub fn transpose_bitmatrix(input: &[u8], output: &mut [u8], rows: usize) {
+    crate::transpose::transpose_bitmatrix(input, output, rows)
+}
+
+/// Portable bit-matrix transpose.
+pub fn transpose_bitmatrix_portable(input: &[u8], output: &mut [u8], rows: usize) {
+    crate::transpose::verif_portable(input, output, rows)
+}
+
+/// The transpose used by the OT extension (`rows x cols` bits).
+pub fn ot_transpose(m: &[u8], nrows: usize, ncols: usize) -> Vec<u8> {
+    crate::ot_core::alsz::transpose(m, nrows, ncols)
+}
+
+/// Dispatching carry-less multiplication, returns (low, high).
+pub fn clmul(a: u128, b: u128) -> (u128, u128) {
+    let (lo, hi) = Block::from(a).clmul(&Block::from(b));
+    (lo.into(), hi.into())
+}
+
+/// Scalar carry-less multiplication, returns (low, high).
+pub fn clmul_scalar(a: u128, b: u128) -> (u128, u128) {
+    crate::block::verif_scalar_clmul128(a, b)
+}
+
+/// Fixed-key correlation robust hash of a block given as bytes.
+pub fn cr_hash_block(x: [u8; 16]) -> [u8; 16] {
+    FIXED_KEY_HASH.cr_hash_block(Block::from(x)).into()
+}
+
+/// Fixed-key tweakable correlation robust hash of a block given as bytes.
+pub fn tccr_hash_block(tweak: [u8; 16], x: [u8; 16]) -> [u8; 16] {
+    FIXED_KEY_HASH
+        .tccr_hash_block(Block::from(tweak), Block::from(x))
+        .into()
+}
+
+/// The fixed AES key of the hashes, as key bytes.
+pub fn fixed_key() -> [u8; 16] {
+    193502124791825095790518994062991136444_u128.to_le_bytes()
+}
+
+/// `len` bytes from a freshly seeded `AesRng` in one `fill_bytes` call.
+pub fn aes_rng_fill(seed: [u8; 16], len: usize) -> Vec<u8> {
+    let mut rng = AesRng::from_seed(Block::from(seed));
+    let mut v = vec![0u8; len];
+    rng.fill_bytes(&mut v);
+    v
+}
+
+/// Bytes from a freshly seeded `AesRng` obtained by consecutive `fill_bytes` calls.
+pub fn aes_rng_fill_seq(seed: [u8; 16], lens: &[usize]) -> Vec<Vec<u8>> {
+    let mut rng = AesRng::from_seed(Block::from(seed));
+    lens.iter()
+        .map(|l| {
+            let mut v = vec![0u8; *l];
+            rng.fill_bytes(&mut v);
+            v
+        })
+        .collect()
+}
